@@ -51,7 +51,7 @@ def dynamic_census(ctx, chk, rule):
                 chk.undecided(rule, f.where(n), "dynamic access `%s` defeats static resolution" % src(n))
             if isinstance(n, (ast.Global, ast.Nonlocal)):
                 pass  # judged by C10.2
-        if f.node.decorator_list:
+        if [d for d in f.node.decorator_list if not (isinstance(d, ast.Name) and d.id in ("staticmethod", "classmethod", "property"))]:
             bad += 1
             chk.undecided(rule, f.where(), "decorated function: call resolution not guaranteed")
     if not bad:
